@@ -111,14 +111,26 @@ def r3_merge_and_removal(rep, ctx):
         return
     d = dels[0]
     par = d._parent
-    tests = []
+    # the condition under which a category is deleted: the enclosing `if`, or - when the keys are
+    # collected first - the filter of the comprehension that the deletion loop iterates
+    cond = None
     if isinstance(par, ast.If):
-        t = par.test
-        tests = t.values if isinstance(t, ast.BoolOp) and isinstance(t.op, ast.Or) else [t]
-    own_zero = any(isinstance(x, ast.Compare) and ast.unparse(x) in ("exp == 0", "0 == exp") for x in tests)
-    total_zero = any(isinstance(x, ast.Compare) and isinstance(x.ops[0], ast.Eq) and isinstance(x.comparators[0], ast.Constant) and x.comparators[0].value == 0 and isinstance(x.left, ast.Subscript) for x in tests)
+        cond = par.test
+    elif isinstance(par, ast.For) and isinstance(par.iter, ast.Name):
+        for st in own_statements(fn.node):
+            if isinstance(st, ast.Assign) and isinstance(st.targets[0], ast.Name) and st.targets[0].id == par.iter.id and isinstance(st.value, (ast.ListComp, ast.SetComp, ast.GeneratorExp)) \
+                    and len(st.value.generators) == 1 and len(st.value.generators[0].ifs) == 1:
+                cond = st.value.generators[0].ifs[0]
+    if cond is None:
+        raise AnalysisError("new-quantity routine: the condition under which a category is removed was not recognised")
+    tests = cond.values if isinstance(cond, ast.BoolOp) and isinstance(cond.op, ast.Or) else [cond]
+    def zero_cmp(x):
+        return isinstance(x, ast.Compare) and len(x.ops) == 1 and isinstance(x.ops[0], ast.Eq) and (
+            (isinstance(x.comparators[0], ast.Constant) and x.comparators[0].value == 0 and x.left) or (isinstance(x.left, ast.Constant) and x.left.value == 0 and x.comparators[0]))
+    own_zero = any(zero_cmp(x) and isinstance(zero_cmp(x), ast.Name) for x in tests)
+    total_zero = any(zero_cmp(x) and isinstance(zero_cmp(x), ast.Subscript) for x in tests)
     rep.check(own_zero and total_zero, "C04.R3", "removal:test", "a category is dropped when its own exponent is 0 or the total exponent of its unit is 0",
-              "the removal test `%s` does not cover %s" % (ast.unparse(par.test) if isinstance(par, ast.If) else None, "'own exponent is 0'" if not own_zero else "'per-unit total is 0'"), node=d, fn=fn)
+              "the removal test `%s` does not cover %s" % (ast.unparse(cond), "'own exponent is 0'" if not own_zero else "'per-unit total is 0'"), node=d, fn=fn)
     create = [c for c in own_nodes(fn.node) if isinstance(c, ast.Call) and isinstance(c.func, ast.Attribute) and c.func.attr in ("CreateDerived", "_CreateDerived")]
     if len(create) != 1:
         raise AnalysisError("new-quantity routine: CreateDerived call not found")
